@@ -126,6 +126,7 @@ func K2() *Entry {
 	}
 	m := WithOneofs(M("Matrix", fs...), "Choice")
 	f := file("k2", m)
+	f.ImportsDescriptor = true // as a file that declares custom options does
 	AutoComments(f)
 	return &Entry{Name: "k2", File: f, Cfg: BaseConfig("Matrix"), Tags: []string{"scalar-matrix", "oneof", "map", "list"}}
 }
